@@ -117,6 +117,29 @@ def observe(field, fmt, text):
     return outcome, calls[0], measured
 
 
+def cross_format_probe():
+    """
+    After fields of other data formats (allowed characters 32...125, or none) have validated cells in this process, a
+    field under a format that allows digits only must still refuse a letter and accept a digit.
+    """
+    from cutplace import data, errors, fields
+    digits_only = data.DataFormat("delimited")
+    digits_only.set_property("allowed_characters", "48...57")
+    digits_only.validate()
+    field = fields.TextFieldFormat("f", False, "", "", digits_only)
+    problems = []
+    for text, must_accept in (("q1", False), ("w", False), ("1z", False), ("11", True)):
+        try:
+            field.validated(text)
+            accepted = True
+        except errors.FieldValueError:
+            accepted = False
+        if accepted != must_accept:
+            problems.append("Text field under allowed characters 48...57 (after other data formats were used in the same process): "
+                            "cell %r is %s" % (text, "accepted" if accepted else "rejected"))
+    return problems
+
+
 def _job(vec):
     """All eight types against one behaviour; returns list of problems."""
     problems = []
@@ -149,6 +172,8 @@ def _job(vec):
             if calls != vec["hookCalls"]:
                 problems.append("%s: the rule was consulted %d time(s) but must be consulted %d time(s)" % (
                     what, calls, vec["hookCalls"]))
+    if fld["restricted"]:
+        problems.extend(cross_format_probe())
     return problems
 
 
